@@ -742,6 +742,33 @@ func witnessCTC() (bool, string) {
 	return false, "no credit-only PPD file drawn"
 }
 
+// witnessCount: C13_opts_valid_refuted (2) on the real code — file and batch under UnequalAddendaCounts,
+// the batch control says 0 entries, the file control the true count: the file validates; Reversal
+// (File.Create) sums the batch controls into a file control of 0 entries while money moves, which
+// FileControl.Validate refuses.  true = reproduced.
+func witnessCount() (bool, string) {
+	r := rng.New(11)
+	for i := 0; i < 50; i++ {
+		f := gen.File(r, gen.Opts{SECs: []string{ach.PPD}, ForwardOnly: true, MinBatches: 1, MaxBatches: 1, MaxEntries: 2})
+		if f == nil || !optsdom.Reversible(f) {
+			continue
+		}
+		gen.ApplyOpts(f, &ach.ValidateOpts{UnequalAddendaCounts: true})
+		f.Batches[0].GetControl().EntryAddendaCount = 0
+		if err := f.Validate(); err != nil {
+			return false, "the witness does not validate: " + err.Error()
+		}
+		if err := f.Reversal(time.Date(2024, 3, 4, 10, 30, 0, 0, time.UTC)); err != nil {
+			return true, "Reversal refuses: " + err.Error()
+		}
+		if err := f.Validate(); err == nil {
+			return false, "the reversed witness validates"
+		}
+		return true, ""
+	}
+	return false, "no PPD file drawn"
+}
+
 // ---------------------------------------------------------------- driver
 
 func corpusSpecs(dir, x string) []spec {
@@ -835,6 +862,11 @@ func run(mode string, args []string) {
 		if ok, why := witnessCTC(); !ok {
 			js, _ := json.Marshal(failure{Kind: "fail", Key: "reversal:opts5:refutation-witness-ctc-not-reproduced",
 				What: "C13_opts_valid_refuted (1) does not show on the real code: " + why, Case: spec{X: x}})
+			orc.Printf("%s\n", js)
+		}
+		if ok, why := witnessCount(); !ok {
+			js, _ := json.Marshal(failure{Kind: "fail", Key: "reversal:opts5:refutation-witness-count-not-reproduced",
+				What: "C13_opts_valid_refuted (2) does not show on the real code: " + why, Case: spec{X: x}})
 			orc.Printf("%s\n", js)
 		}
 	}
